@@ -9,7 +9,8 @@ EXTENDS Codec, Json, IOUtils
 ASSUME JsonSerialize(IOEnv.C15_DOMAIN,
                      [rule |-> RuleSeq, uniq |-> UniqSeq, uid |-> UidSeq, event |-> EventSeq, dn |-> DnSeq,
                       zk |-> ZkSeq, ldap |-> LdapSeq, ldapupd |-> LdapUpdSeq,
-                      updextra |-> [partition |-> PartitionUpd, cellalloc |-> CellAllocUpd, app |-> AppUpd],
+                      updextra |-> [partition |-> PartitionUpd, cellalloc |-> CellAllocUpd, app |-> AppUpd,
+                                    server |-> ServerUpd, cell |-> CellUpd],
                       specs |-> [partition |-> PartitionSpec, cellalloc |-> CellAllocSpec,
-                                 app |-> AppSpec]])
+                                 app |-> AppSpec, server |-> ServerSpec, cell |-> CellSpec]])
 =============================================================================
